@@ -15,6 +15,9 @@ def base_profile(rng, flags_off, hostile=True):
         # whitespace-only edits are exercised end-to-end by C01 and in-process by C16; in multi-commit / rewrite scenarios they are
         # kept out of random exploration while the whitespace findings D13 / D17 / D24 are open (long tail of the same defects)
         p["reindent"] = False
+    if "rebase_upstream_same_file" in flags_off:
+        # finding D20 family: the content-matching replay also mis-places attributions around blank / duplicated lines
+        p["decoys"] = False
     for f in flags_off:
         p[f] = False
     return p
